@@ -309,7 +309,30 @@ func checkC15(c *Check) {
 			}
 			m1, f1, o1 := classify(true)
 			m2, f2, o2 := classify(false)
+			// the flag is set by a lookup on every path that reaches the entitlement lookup (not left at its zero value,
+			// which reads "no translation")
+			unset := ""
+			for o := range found {
+				o := o
+				sets := func(q Pt) bool {
+					as, ok := q.Node().(*ast.AssignStmt)
+					if !ok {
+						return false
+					}
+					for _, l := range as.Lhs {
+						if objOf(info, l) == o {
+							return true
+						}
+					}
+					return false
+				}
+				if path, f := r.F.Reach(Query{From: r.Entry(), Inclusive: true, Target: func(q Pt) bool { return q == azPt }, Avoid: sets}); f {
+					unset = r.F.Describe(path)
+				}
+			}
 			switch {
+			case unset != "":
+				msg = "the 'found' flag of the prepare_email lookup is left at its zero value on a path to the entitlement lookup: a translation that exists is ignored and the untranslated address is judged: " + unset
 			case len(found) == 0:
 				msg = "undecided: no 'found' flag of the prepare_email lookup"
 			case o1 || o2:
@@ -697,6 +720,30 @@ func checkC15(c *Check) {
 			addrObj = addrLoop.ElemObj()
 		}
 		path, f := ra.F.Reach(Query{From: ra.Entry(), Inclusive: true, Target: accept, AvoidEdge: eqOK})
+		// the answer of a single-valued table is an entitlement only when the table found the user: a not-found answer is the
+		// empty string, which equals the (empty) domain of an address without one
+		msgNF := ""
+		nLook := 0
+		for _, pt := range ra.F.Points() {
+			as, ok := pt.Node().(*ast.AssignStmt)
+			if !ok || len(as.Lhs) != 3 || len(as.Rhs) != 1 {
+				continue
+			}
+			call, ok := ast.Unparen(as.Rhs[0]).(*ast.CallExpr)
+			if !ok || methodName(call) != "Lookup" {
+				continue
+			}
+			val, okV := objOf(info, as.Lhs[0]), objOf(info, as.Lhs[1])
+			if val == nil || okV == nil {
+				continue
+			}
+			nLook++
+			usesVal := func(q Pt) bool { return q.Node() != nil && q != pt && mentions(info, q.Node(), val) }
+			if path, f := ra.F.ReachRefined(pt, okV, true, true, usesVal, nil); f {
+				msgNF = "the value of a lookup that found nothing is used as an entitlement: " + ra.F.Describe(path)
+			}
+		}
+		c.Hold("R6", "AuthorizeEmailUse:not-found-is-no-entitlement", ra.FI.Decl.Pos(), msgNF == "" && nLook > 0, msgNF)
 		c.Hold("R6", "AuthorizeEmailUse:equality-only", ra.FI.Decl.Pos(), !f && entObj != nil && addrObj != nil, "the entitlement lookup can accept without an equality between an entry and the address / its domain / \"*\" (e.g. a suffix or prefix match admits foreign addresses that merely end with an entitled one): "+ra.F.Describe(path))
 	}
 }
